@@ -3,6 +3,7 @@
 package main
 
 import (
+	"sync"
 	"fmt"
 	"math/rand"
 	"sort"
@@ -911,7 +912,20 @@ func c12Check(c *c12Case, recs []c12Rec, sig string, flipped bool) (fails []Fail
 	return
 }
 
+// The mimetype tree is process-global and BOTH guessers of obiformats extend it, in front, at every call: the reader chosen by
+// ReadNGSFilter depends on whether a sequence file was opened before in the process (OBIMimeTypeGuesser attaches FASTA / FASTQ /
+// EMBL / GenBank / ecoPCR and a csv detector to the ROOT, where they are asked even for "binary" data).  obimultiplex opens
+// its input before it reads the sample sheet: the harness pins that state once, so that every case — also a single replayed
+// one — sees the sheet as the command does (Model/NgsFilterBytes.lean whichReader).
+var c12PinMime sync.Once
+
 func (p c12) Exec(cl string) (string, []Fail) {
+	c12PinMime.Do(func() {
+		guardT(10*time.Second, func() string {
+			obiformats.OBIMimeTypeGuesser(strings.NewReader(">s\nacgt\n"))
+			return ""
+		})
+	})
 	f := strings.Fields(cl)
 	if len(f) == 0 {
 		return "bad-op", nil
